@@ -76,6 +76,14 @@ CLAIMED["C17"] = ("DESIGN.md §4 C17",
     "trusted: pysym; environment stubs (ZipFile, plistlib.loads, IWAFile.from_buffer outcome, Path) active in symbolic and "
     "native runs alike; outside: which bytes make zlib/snappy/protobuf fail, package-folder form, OS-level I/O errors")
 
+CLAIMED["C14"] = ("DESIGN.md §4 C14",
+    "Each numeric date/time directive of the real DATETIME_FIELD_MAP is rendered for symbolic clock fields (all hours, "
+    "minutes, seconds, microseconds) and symbolic calendar fields (years 1000..9999, all months, days 1..28): z3 shows the "
+    "text has the documented width and denotes the field; the real format scanner equals a reference scanner on every "
+    "format string of <= 3/4 arbitrary characters; whole-second durations read back unit by unit for all unit pairs and styles.",
+    "trusted: pysym, exact-integer datetime/strftime model (C locale), lemma cut for int(d/k); outside: names, W/ww/F, "
+    "sub-second durations, automatic units, days 29..31")
+
 NOT_APPLICABLE = {}
 
 
